@@ -10,8 +10,8 @@ the endpoint chains are not part of the dispatch chain set, `evalChain` reports 
 Guards (each stated as an explicit hypothesis, each necessary — see the `example`s at the end):
 * no configured name is empty (the real code panics; `sortAndDivide = none`);
 * no configured name ends in the dataplane's wildcard byte (`+` / `*`): such a name is a pattern;
-* `chainNamesOK`: rendered chain names are pairwise distinct and differ from the endpoint chain
-  names (decidable; evaluated on every generated case by driver and harness).
+(The chain-name side condition `chainNamesOK` — rendered chain names pairwise distinct and distinct
+from the endpoint chain names — is PROVED for every name list: `workload_names_ok`, `host_names_ok`.)
 -/
 namespace CalicoVerif.C10
 open CalicoVerif.Netfilter
@@ -92,15 +92,14 @@ traffic on any other interface is dropped (or rejected, per `FilterDenyAction`).
 theorem workload_dispatch_exact_ipt (names : List Bytes) (reject : Bool) (chains : List Chain)
     (pkt : Packet) (G : Nat) (mark : Mark)
     (hc : workloadDispatchChains .ipt reject names = some chains)
-    (hw : ∀ n ∈ names, n.getLast? ≠ some (wildcardByte .ipt))
-    (hok : chainNamesOK chains
-      (names.map (endpointChainName pfxFromWl) ++ names.map (endpointChainName pfxToWl)) = true) :
+    (hw : ∀ n ∈ names, n.getLast? ≠ some (wildcardByte .ipt)) :
     evalChain (mkEnv .ipt names) chains pkt (G + 3) chainFromWl mark =
       (if pkt.inIface ∈ names then .missing (endpointChainName pfxFromWl pkt.inIface)
        else .verdict (if reject then .reject else .drop) mark) ∧
     evalChain (mkEnv .ipt names) chains pkt (G + 3) chainToWl mark =
       (if pkt.outIface ∈ names then .missing (endpointChainName pfxToWl pkt.outIface)
        else .verdict (if reject then .reject else .drop) mark) := by
+  have hok := workload_names_ok .ipt reject names chains hc
   unfold workloadDispatchChains interfaceNameDispatchChains at hc
   split at hc
   · exact absurd hc (by simp)
@@ -193,15 +192,14 @@ contents given by `DispatchMappings`, the root chain hands a packet on a configu
 that interface's chain, and denies everything else. -/
 theorem workload_dispatch_exact_nft (names : List Bytes) (reject : Bool) (chains : List Chain)
     (pkt : Packet) (G : Nat) (mark : Mark)
-    (hc : workloadDispatchChains .nft reject names = some chains)
-    (hok : chainNamesOK chains
-      (names.map (endpointChainName pfxFromWl) ++ names.map (endpointChainName pfxToWl)) = true) :
+    (hc : workloadDispatchChains .nft reject names = some chains) :
     evalChain (mkEnv .nft names) chains pkt (G + 2) chainFromWl mark =
       (if pkt.inIface ∈ names then .missing (endpointChainName pfxFromWl pkt.inIface)
        else .verdict (if reject then .reject else .drop) mark) ∧
     evalChain (mkEnv .nft names) chains pkt (G + 2) chainToWl mark =
       (if pkt.outIface ∈ names then .missing (endpointChainName pfxToWl pkt.outIface)
        else .verdict (if reject then .reject else .drop) mark) := by
+  have hok := workload_names_ok .nft reject names chains hc
   unfold workloadDispatchChains interfaceNameDispatchChains at hc
   split at hc
   · exact absurd hc (by simp)
@@ -271,10 +269,7 @@ interface prefix, not at all); with no wildcard endpoint the packet just returns
 theorem host_dispatch_exact (dp : Dataplane) (names : List Bytes) (dflt : Bytes) (wlp : List Bytes)
     (chains : List Chain) (pkt : Packet) (G : Nat) (mark : Mark)
     (hc : hostDispatchChains dp names dflt wlp .both false = some chains)
-    (hw : ∀ n ∈ names, n.getLast? ≠ some (wildcardByte dp))
-    (hok : chainNamesOK chains
-      (names.map (endpointChainName "cali-fh-") ++ names.map (endpointChainName "cali-th-") ++
-        [endpointChainName "cali-fh-" dflt, endpointChainName "cali-th-" dflt]) = true) :
+    (hw : ∀ n ∈ names, n.getLast? ≠ some (wildcardByte dp)) :
     evalChain (mkEnv dp names) chains pkt (G + 3) "cali-from-host-endpoint" mark =
       (if pkt.inIface ∈ names then .missing (endpointChainName "cali-fh-" pkt.inIface)
        else if dflt = [] then .returned mark
@@ -284,6 +279,7 @@ theorem host_dispatch_exact (dp : Dataplane) (names : List Bytes) (dflt : Bytes)
        else if dflt = [] then .returned mark
        else if wlp.any (fun p => p.isPrefixOf pkt.outIface) then .returned mark
        else .missing (endpointChainName "cali-th-" dflt)) := by
+  have hok := host_names_ok dp names dflt wlp chains hc
   unfold hostDispatchChains at hc
   simp only [Bool.false_eq_true, not_false_eq_true, and_true, if_true] at hc
   unfold interfaceNameDispatchChains at hc
